@@ -1149,6 +1149,27 @@ class PrepareAst:
             type_rhs = ObjTraits.gettype(val_rhs)
 
             def overloaded_operator(default_op, reverse_op):
+                # like in Python the reflected method of the right operand has priority
+                # when its type is a proper subclass of the left operand's type
+                # that provides a different implementation of the reflected method
+                if (
+                    isinstance(type_lhs, type)
+                    and isinstance(type_rhs, type)
+                    and type_lhs in type_rhs.__mro__[1:]
+                    and getattr(type_rhs, reverse_op, None) is not None
+                    and getattr(type_rhs, reverse_op)
+                    is not getattr(type_lhs, reverse_op, None)
+                ):
+                    reverse_call = self.subcall(
+                        ObjTraits.getattr(type_rhs, reverse_op), [val_rhs, val_lhs], {}
+                    )
+
+                    reverse_call.add_bound_statement(lhs)
+                    reverse_call.add_bound_statement(rhs)
+
+                    if ObjTraits.get(reverse_call.result()) is not NotImplemented:
+                        return reverse_call
+
                 if ObjTraits.hasattr(type_lhs, default_op):
                     call = self.subcall(
                         ObjTraits.getattr(type_lhs, default_op), [val_lhs, val_rhs], {}
@@ -1251,18 +1272,35 @@ class PrepareAst:
                 type_rhs = ObjTraits.gettype(val_rhs)
 
                 def evaluate(normal_name, reverse_name):
-                    first_result = self.subcall(
-                        ObjTraits.getattr(type_lhs, normal_name), [val_lhs, val_rhs], {}
+                    # like in Python the mirrored method of the right operand has priority
+                    # when its type is a proper subclass of the left operand's type
+                    if (
+                        isinstance(type_lhs, type)
+                        and isinstance(type_rhs, type)
+                        and type_lhs in type_rhs.__mro__[1:]
+                    ):
+                        attempts = [
+                            (type_rhs, reverse_name, [val_rhs, val_lhs]),
+                            (type_lhs, normal_name, [val_lhs, val_rhs]),
+                        ]
+                    else:
+                        attempts = [
+                            (type_lhs, normal_name, [val_lhs, val_rhs]),
+                            (type_rhs, reverse_name, [val_rhs, val_lhs]),
+                        ]
+
+                    result = self.subcall(
+                        ObjTraits.getattr(attempts[0][0], attempts[0][1]),
+                        attempts[0][2],
+                        {},
                     )
 
-                    if first_result.result() is NotImplemented:
+                    if result.result() is NotImplemented:
                         result = self.subcall(
-                            ObjTraits.getattr(type_rhs, reverse_name),
-                            [val_rhs, val_lhs],
+                            ObjTraits.getattr(attempts[1][0], attempts[1][1]),
+                            attempts[1][2],
                             {},
                         )
-                    else:
-                        result = first_result
 
                     assert (
                         result.result() is not NotImplemented
